@@ -1073,6 +1073,223 @@ theorem strength_nonpositive_not_exact :
     simp only [List.mem_cons, List.not_mem_nil, or_false] at h0 h1 h2
     rcases h0 with h0 | h0 <;> rcases h1 with h1 | h1 <;> rcases h2 with h2 | h2 <;> rw [h0, h1, h2] <;> decide +kernel
 
+/-! ## round 7: the whole returned sample set, end to end (BINARY) -/
+
+/-- the quadratic model `make_quadratic` builds on a fresh BINARY model, as an energy function: at every 0/1
+    assignment it is never below the reduced polynomial, equals the POLYNOMIAL where every product variable equals its
+    product, and lies `≥ strength` above the reduced polynomial elsewhere (`strength ≥ 0`) -/
+theorem make_quadratic_model_energy_binary (strength : Rat) (hs : 0 ≤ strength) (raw : List (List Label × Rat)) (choices : List Pair)
+    (hch : ∀ c ∈ choices, c.1 ≠ c.2) (bag : List (PTerm Label)) (st : BK) (auxs : List Label)
+    (h : makeQuadratic [] .binary strength raw choices = some (bag, st, auxs)) (x : Label → Rat) (hx : ∀ l, x l ∈ [(0 : Rat), 1]) :
+    polyEnergy x st.reduced ≤ ((Bq.empty .binary : Bq Label).apply bag).energy x
+    ∧ ((∀ c ∈ st.constraints, x c.2 = x c.1.1 * x c.1.2) →
+        ((Bq.empty .binary : Bq Label).apply bag).energy x = polyEnergy x (normPoly .binary raw))
+    ∧ ((∃ c ∈ st.constraints, x c.2 ≠ x c.1.1 * x c.1.2) →
+        polyEnergy x st.reduced + strength ≤ ((Bq.empty .binary : Bq Label).apply bag).energy x) := by
+  have hdom : Dom (Bq.empty .binary : Bq Label).vt x := by
+    intro v
+    have := hx v
+    simp only [List.mem_cons, List.not_mem_nil, or_false] at this
+    rcases this with h0 | h1
+    · rw [h0]; grind
+    · rw [h1]; grind
+  have hE : ((Bq.empty .binary : Bq Label).apply bag).energy x = evalBag x bag := by
+    rw [apply_energy _ x hdom]
+    simp only [Bq.empty, Bq.energy, Bq.linSum, Bq.quadSum]; grind
+  have hp := make_quadratic_penalty_scaled [] strength hs raw choices bag st auxs h x hx
+  refine ⟨by rw [hE]; grind, ?_, ?_⟩
+  · intro hc
+    rw [hE]
+    exact make_quadratic_exact [] strength raw choices bag st auxs h hch x hx hc
+  · intro hex
+    rw [hE]
+    have := hp.2.2 hex
+    grind
+
+/-- **`HigherOrderComposite.sample_poly`, BINARY polynomial, the whole returned sample set end to end**
+    (`Red.samplePolyRecord`; `penalty_strength ≥ 0`, every option, any child): whenever a sample set is returned, every one
+    of its records stems from a record of the child's response to `make_quadratic(poly, penalty_strength, BINARY)`; with
+    `x` the child's row (0/1 values), the reported energy is the polynomial's energy of `x`; the quadratic model's energy
+    of `x` is never below the reduced polynomial's; it EQUALS the reported energy when `penalty_satisfaction = 1`
+    (always, with `discard_unsatisfied`), and lies at least `penalty_strength` above the reduced polynomial when
+    `penalty_satisfaction = 0` -/
+theorem sample_poly_record_end_to_end_binary (child : Bq Label → Option (List (Label × Rat)) → SampleSetM)
+    (raw : List (List Label × Rat)) (choices : List Pair) (hch : ∀ c ∈ choices, c.1 ≠ c.2) (order : List Label)
+    (strength : Rat) (hs : 0 ≤ strength) (keep discard : Bool) (init : Option (List (Label × Rat))) (out : OutSet)
+    (h : samplePolyRecord child .binary raw choices order strength keep discard init = some (.ok out)) :
+    ∃ bag st auxs init', makeQuadratic [] .binary strength raw choices = some (bag, st, auxs)
+      ∧ ∀ ro ∈ out.rows, ∃ r ∈ (child ((Bq.empty .binary : Bq Label).apply bag) init').rows,
+          ro.vectors = r.vectors
+          ∧ ro.energy = polyEnergy (rowFn (child ((Bq.empty .binary : Bq Label).apply bag) init').vars r.sample) (normPoly .binary raw)
+          ∧ ((∀ a ∈ r.sample, a ∈ [(0 : Rat), 1]) →
+              polyEnergy (rowFn (child ((Bq.empty .binary : Bq Label).apply bag) init').vars r.sample) st.reduced
+                  ≤ ((Bq.empty .binary : Bq Label).apply bag).energy (rowFn (child ((Bq.empty .binary : Bq Label).apply bag) init').vars r.sample)
+              ∧ (ro.sat = 1 → ((Bq.empty .binary : Bq Label).apply bag).energy
+                    (rowFn (child ((Bq.empty .binary : Bq Label).apply bag) init').vars r.sample) = ro.energy)
+              ∧ (ro.sat = 0 → polyEnergy (rowFn (child ((Bq.empty .binary : Bq Label).apply bag) init').vars r.sample) st.reduced + strength
+                    ≤ ((Bq.empty .binary : Bq Label).apply bag).energy (rowFn (child ((Bq.empty .binary : Bq Label).apply bag) init').vars r.sample))) := by
+  obtain ⟨bag, st, auxs, init', hmq, _, hres⟩ := sample_poly_record_spec child .binary raw choices order strength keep discard init _ h
+  refine ⟨bag, st, auxs, init', hmq, ?_⟩
+  generalize child ((Bq.empty .binary : Bq Label).apply bag) init' = resp at hres ⊢
+  obtain ⟨hrows, -⟩ := polymorph_response_rows (normPoly .binary raw) order st.constraints (some strength) keep discard resp out hres.symm
+  intro ro hro
+  obtain ⟨r, hr, hvec, _, hen, _, hsat, hdisc⟩ := hrows ro hro
+  refine ⟨r, hr, hvec, hen _ (fun _ _ => rfl), fun hvals => ?_⟩
+  have hx : ∀ l, rowFn resp.vars r.sample l ∈ [(0 : Rat), 1] := by
+    intro l
+    unfold rowFn
+    cases indexOf? l resp.vars with
+    | none => simp
+    | some i =>
+      simp only [List.getD_eq_getElem?_getD]
+      cases hi : r.sample[i]? with
+      | none => simp
+      | some a => simpa using hvals a (List.mem_of_getElem? hi)
+  obtain ⟨h1, h2, h3⟩ := make_quadratic_model_energy_binary strength hs raw choices hch bag st auxs hmq _ hx
+  refine ⟨h1, ?_, ?_⟩
+  · intro hs1
+    rw [hen _ (fun _ _ => rfl)]
+    apply h2
+    rcases hsat.1 hs1 with hd | ha
+    · intro c hc; exact (hdisc hd c hc).symm
+    · intro c hc; exact (ha c hc).symm
+  · intro hs0
+    apply h3
+    apply Classical.byContradiction
+    intro hne
+    have hall : ∀ c ∈ st.constraints, rowFn resp.vars r.sample c.1.1 * rowFn resp.vars r.sample c.1.2 = rowFn resp.vars r.sample c.2 := by
+      intro c hc
+      apply Classical.byContradiction
+      intro hcc
+      exact hne ⟨c, hc, fun e => hcc e.symm⟩
+    have := hsat.2 (Or.inr hall)
+    omega
+
+/-! ## round 7: the whole returned sample set, end to end (SPIN) -/
+
+/-- the quadratic model `make_quadratic` builds on a fresh SPIN model, as an energy function (`strength ≥ 0`): at every ±1
+    assignment — whatever the auxiliaries — it is never below the reduced polynomial and `≥ strength` above it where some
+    product variable differs from its product; where all products are consistent it is never below the POLYNOMIAL and
+    equals it after re-setting only the spin auxiliaries -/
+theorem make_quadratic_model_energy_spin (strength : Rat) (hs : 0 ≤ strength) (raw : List (List Label × Rat)) (choices : List Pair)
+    (hch : ∀ c ∈ choices, c.1 ≠ c.2) (bag : List (PTerm Label)) (st : BK) (auxs : List Label)
+    (h : makeQuadratic [] .spin strength raw choices = some (bag, st, auxs)) (x : Label → Rat) (hx : Spin01 x) :
+    polyEnergy x st.reduced ≤ ((Bq.empty .spin : Bq Label).apply bag).energy x
+    ∧ ((∀ c ∈ st.constraints, x c.2 = x c.1.1 * x c.1.2) →
+        polyEnergy x (normPoly .spin raw) ≤ ((Bq.empty .spin : Bq Label).apply bag).energy x
+        ∧ ∃ x', Spin01 x' ∧ (∀ l, l ∉ auxs → x' l = x l)
+            ∧ ((Bq.empty .spin : Bq Label).apply bag).energy x' = polyEnergy x (normPoly .spin raw))
+    ∧ ((∃ c ∈ st.constraints, x c.2 ≠ x c.1.1 * x c.1.2) →
+        polyEnergy x st.reduced + strength ≤ ((Bq.empty .spin : Bq Label).apply bag).energy x) := by
+  have hdomOf : ∀ y : Label → Rat, Spin01 y → Dom (Bq.empty .spin : Bq Label).vt y := by
+    intro y hy v
+    have := hy v
+    simp only [List.mem_cons, List.not_mem_nil, or_false] at this
+    rcases this with h0 | h1
+    · rw [h0]; grind
+    · rw [h1]; grind
+  have hEof : ∀ y : Label → Rat, Spin01 y → ((Bq.empty .spin : Bq Label).apply bag).energy y = evalBag y bag := by
+    intro y hy
+    rw [apply_energy _ y (hdomOf y hy)]
+    simp only [Bq.empty, Bq.energy, Bq.linSum, Bq.quadSum]; grind
+  have hp := make_quadratic_penalty_scaled_spin [] strength hs raw choices hch bag st auxs h x hx
+  refine ⟨by rw [hEof x hx]; grind, ?_, ?_⟩
+  · intro hc
+    have hred := make_quadratic_reduced_consistent [] .spin strength raw choices bag st auxs h hch x hc
+    refine ⟨by rw [hEof x hx, ← hred]; grind, ?_⟩
+    obtain ⟨x', hx', hoff, hE', _⟩ := make_quadratic_exact_spin [] strength raw choices bag st auxs h hch x hx hc
+    exact ⟨x', hx', hoff, by rw [hEof x' hx', hE']⟩
+  · intro hex
+    rw [hEof x hx]
+    have := hp.2.1 hex
+    grind
+
+/-- **`HigherOrderComposite.sample_poly`, SPIN polynomial, the whole returned sample set end to end** (`penalty_strength ≥ 0`,
+    every option, any child whose records have one value per variable): every returned record stems from a record of the
+    child's response to `make_quadratic(poly, penalty_strength, SPIN)`; with `x` the child's row (±1 values; `1` for labels
+    the response does not have), the reported energy is the polynomial's energy of `x`; the quadratic model's energy of `x`
+    (auxiliaries as the child set them) is never below the reduced polynomial's; when `penalty_satisfaction = 1` the
+    reported energy is ≤ the energy the child saw and equals the model's energy after re-setting only the spin
+    auxiliaries; when `penalty_satisfaction = 0` the child's energy is at least `penalty_strength` above the reduced
+    polynomial -/
+theorem sample_poly_record_end_to_end_spin (child : Bq Label → Option (List (Label × Rat)) → SampleSetM)
+    (hlen : ∀ b i, ∀ r ∈ (child b i).rows, r.sample.length = (child b i).vars.length)
+    (raw : List (List Label × Rat)) (choices : List Pair) (hch : ∀ c ∈ choices, c.1 ≠ c.2)
+    (order : List Label) (horder : ∀ v ∈ order, v ∈ polyVars (normPoly .spin raw))
+    (strength : Rat) (hs : 0 ≤ strength) (keep discard : Bool) (init : Option (List (Label × Rat))) (out : OutSet)
+    (h : samplePolyRecord child .spin raw choices order strength keep discard init = some (.ok out)) :
+    ∃ bag st auxs init', makeQuadratic [] .spin strength raw choices = some (bag, st, auxs)
+      ∧ ∀ ro ∈ out.rows, ∃ r ∈ (child ((Bq.empty .spin : Bq Label).apply bag) init').rows,
+          ro.vectors = r.vectors
+          ∧ ro.energy = polyEnergy (rowFn1 (child ((Bq.empty .spin : Bq Label).apply bag) init').vars r.sample) (normPoly .spin raw)
+          ∧ ((∀ a ∈ r.sample, a ∈ [(-1 : Rat), 1]) →
+              polyEnergy (rowFn1 (child ((Bq.empty .spin : Bq Label).apply bag) init').vars r.sample) st.reduced
+                  ≤ ((Bq.empty .spin : Bq Label).apply bag).energy (rowFn1 (child ((Bq.empty .spin : Bq Label).apply bag) init').vars r.sample)
+              ∧ (ro.sat = 1 →
+                    ro.energy ≤ ((Bq.empty .spin : Bq Label).apply bag).energy (rowFn1 (child ((Bq.empty .spin : Bq Label).apply bag) init').vars r.sample)
+                    ∧ ∃ x', Spin01 x' ∧ (∀ l, l ∉ auxs → x' l = rowFn1 (child ((Bq.empty .spin : Bq Label).apply bag) init').vars r.sample l)
+                        ∧ ((Bq.empty .spin : Bq Label).apply bag).energy x' = ro.energy)
+              ∧ (ro.sat = 0 → polyEnergy (rowFn1 (child ((Bq.empty .spin : Bq Label).apply bag) init').vars r.sample) st.reduced + strength
+                    ≤ ((Bq.empty .spin : Bq Label).apply bag).energy (rowFn1 (child ((Bq.empty .spin : Bq Label).apply bag) init').vars r.sample))) := by
+  obtain ⟨bag, st, auxs, init', hmq, _, hres⟩ := sample_poly_record_spec child .spin raw choices order strength keep discard init _ h
+  refine ⟨bag, st, auxs, init', hmq, ?_⟩
+  have hlen' := hlen ((Bq.empty .spin : Bq Label).apply bag) init'
+  generalize child ((Bq.empty .spin : Bq Label).apply bag) init' = resp at hres hlen' ⊢
+  -- the response has every label the code looks up
+  have hnoerr : ¬ ∃ e, polymorphRecord (normPoly .spin raw) order st.constraints (some strength) keep discard resp = .error e := by
+    rintro ⟨e, he⟩; rw [← hres] at he; simp at he
+  rw [polymorph_response_raises_iff (normPoly .spin raw) order horder] at hnoerr
+  have hredIn : ∀ c ∈ st.constraints, c.1.1 ∈ resp.vars ∧ c.1.2 ∈ resp.vars ∧ c.2 ∈ resp.vars := by
+    intro c hc
+    refine ⟨?_, ?_, ?_⟩ <;>
+    · apply Classical.byContradiction
+      intro hn
+      exact hnoerr (Or.inl ⟨c, hc, by simp [hn]⟩)
+  have hpolyIn : ∀ v ∈ polyVars (normPoly .spin raw), v ∈ resp.vars := by
+    intro v hv
+    apply Classical.byContradiction
+    intro hn
+    exact hnoerr (Or.inr (Or.inl ⟨v, hv, hn⟩))
+  obtain ⟨hrows, -⟩ := polymorph_response_rows (normPoly .spin raw) order st.constraints (some strength) keep discard resp out hres.symm
+  intro ro hro
+  obtain ⟨r, hr, hvec, _, hen, _, hsat, hdisc⟩ := hrows ro hro
+  have hagree : ∀ v ∈ resp.vars, rowFn1 resp.vars r.sample v = rowFn resp.vars r.sample v :=
+    fun v hv => rowFn1_eq_rowFn resp.vars r.sample (hlen' r hr) v hv
+  have hen1 : ro.energy = polyEnergy (rowFn1 resp.vars r.sample) (normPoly .spin raw) :=
+    hen _ (fun v hv => hagree v (hpolyIn v hv))
+  -- the product constraints read on the extended row
+  have hcons : ∀ c ∈ st.constraints,
+      (rowFn resp.vars r.sample c.1.1 * rowFn resp.vars r.sample c.1.2 = rowFn resp.vars r.sample c.2
+        ↔ rowFn1 resp.vars r.sample c.2 = rowFn1 resp.vars r.sample c.1.1 * rowFn1 resp.vars r.sample c.1.2) := by
+    intro c hc
+    obtain ⟨h1, h2, h3⟩ := hredIn c hc
+    rw [hagree _ h1, hagree _ h2, hagree _ h3]
+    constructor <;> intro e <;> exact e.symm
+  refine ⟨r, hr, hvec, hen1, fun hvals => ?_⟩
+  have hx : Spin01 (rowFn1 resp.vars r.sample) := fun l => rowFn1_spin resp.vars r.sample hvals l
+  obtain ⟨h1, h2, h3⟩ := make_quadratic_model_energy_spin strength hs raw choices hch bag st auxs hmq _ hx
+  refine ⟨h1, ?_, ?_⟩
+  · intro hs1
+    have hall : ∀ c ∈ st.constraints, rowFn1 resp.vars r.sample c.2 = rowFn1 resp.vars r.sample c.1.1 * rowFn1 resp.vars r.sample c.1.2 := by
+      intro c hc
+      rcases hsat.1 hs1 with hd | ha
+      · exact (hcons c hc).1 (hdisc hd c hc)
+      · exact (hcons c hc).1 (ha c hc)
+    obtain ⟨hle, x', hx', hoff, hE⟩ := h2 hall
+    exact ⟨by rw [hen1]; exact hle, x', hx', hoff, by rw [hE, hen1]⟩
+  · intro hs0
+    apply h3
+    apply Classical.byContradiction
+    intro hne
+    have hall : ∀ c ∈ st.constraints, rowFn resp.vars r.sample c.1.1 * rowFn resp.vars r.sample c.1.2 = rowFn resp.vars r.sample c.2 := by
+      intro c hc
+      apply (hcons c hc).2
+      apply Classical.byContradiction
+      intro hcc
+      exact hne ⟨c, hc, hcc⟩
+    have := hsat.2 (Or.inr hall)
+    omega
+
 /-! ## round 7: non-vacuity of the new hypotheses -/
 
 /-- a child response over `[0, 1, '0*1']` with a consistent and an inconsistent record; `discard_unsatisfied` keeps the
@@ -1103,5 +1320,21 @@ example : (match polymorphRecord [([.int 0, .int 1], 3)] [.int 1, .int 0] [((.in
 /-- `make_quadratic` with `strength = 0` and with a negative strength returns a model (hypotheses of the two theorems) -/
 example : ((makeQuadratic [] .spin 0 witnessRaw [(.int 0, .int 1)]).isSome, (makeQuadratic [] .spin (-1) witnessRaw [(.int 0, .int 1)]).isSome,
            (makeQuadratic [] .binary (3/4) witnessRaw [(.int 0, .int 1)]).isSome) = (true, true, true) := by decide +kernel
+
+/-- the hypothesis of `sample_poly_record_end_to_end_binary` is met: a child returning a consistent and an inconsistent
+    0/1 record over the variables of `make_quadratic(2·x0x1x2 − x0 − x1 − x2, 2)`; reported: the polynomial's energies, flags 1 and 0 -/
+example : ((samplePolyRecord (fun _ _ => { vars := [.int 0, .int 1, .int 2, .str "0*1"], names := ["num_occurrences"],
+      rows := [⟨[1, 1, 1, 1], 0, [1]⟩, ⟨[1, 1, 0, 0], 0, [2]⟩], info := [], vt := .binary })
+    .binary witnessRaw [(.int 0, .int 1)] [.int 0, .int 1, .int 2] 2 false false none).map
+      (fun r => r.toOption.map (fun out => out.rows.map (fun ro => (ro.energy, ro.sat))))) = some (some [(-1, 1), (-2, 0)]) := by
+  decide +kernel
+
+/-- the same for `sample_poly_record_end_to_end_spin` (±1 records with one value per variable, `order` = the polynomial's variables) -/
+example : ((samplePolyRecord (fun _ _ => { vars := [.int 0, .int 1, .int 2, .str "0*1", .str "aux0,1"], names := [],
+      rows := [⟨[1, 1, 1, 1, -1], 0, []⟩, ⟨[1, 1, -1, -1, 1], 0, []⟩], info := [], vt := .spin })
+    .spin witnessRaw [(.int 0, .int 1)] [.int 0, .int 1, .int 2] 2 true true none).map
+      (fun r => r.toOption.map (fun out => out.rows.map (fun ro => (ro.energy, ro.sat))))) = some (some [(-1, 1)])
+    ∧ polyVars (normPoly .spin witnessRaw) = [.int 0, .int 1, .int 2] := by
+  decide +kernel
 
 end C15
